@@ -322,6 +322,7 @@ func newEnvPickler() pickle.PicklerFunc {
 // envPickler provides support for pickling functions and modules.
 //
 // - Builtins are pickled as (NEWOBJ "dawn" "Builtin" ())
+// - The placeholder default of a required keyword-only parameter is pickled as (NEWOBJ "dawn" "Required" ())
 // - Function code is pickled as (NEWOBJ "dawn" "FunctionCode" (module, globals, bytecode))
 // - Functions are pickled as (NEWOBJ "dawn" "Function" (defaults, freevars, code)).
 //
@@ -340,6 +341,10 @@ func envPickler(x starlark.Value) (module, name string, args starlark.Tuple, err
 		defaults, freevars := x.Env()
 		return "dawn", "Function", starlark.Tuple{defaults, freevars, x.Code()}, nil
 	default:
+		if x.Type() == "mandatory" {
+			// The placeholder that stands for the missing default value of a required keyword-only parameter.
+			return "dawn", "Required", starlark.Tuple{}, nil
+		}
 		return "", "", nil, pickle.ErrCannotPickle
 	}
 }
@@ -372,6 +377,11 @@ func envUnpickler(module, name string, args starlark.Tuple) (starlark.Value, err
 			return nil, fmt.Errorf("expected 0 args, got %v", len(args))
 		}
 		return args, nil
+	case "Required":
+		if len(args) != 0 {
+			return nil, fmt.Errorf("expected 0 args, got %v", len(args))
+		}
+		return starlark.Tuple{starlark.String("required parameter")}, nil
 	case "FunctionCode":
 		if len(args) != 3 {
 			return nil, fmt.Errorf("expcted 3 args, got %v", len(args))
